@@ -215,6 +215,11 @@ pub fn run(sc: &Value) -> Vec<String> {
                     url = "https://origin.test/".into();
                     proxy = Some("http://proxy.test:3128");
                 }
+                "connect-refusal-body-declared" => {
+                    wire.extend_from_slice(format!("HTTP/1.1 502 Bad Gateway\r\nContent-Length: {}\r\n\r\n", total).as_bytes());
+                    url = "https://origin.test/".into();
+                    proxy = Some("http://proxy.test:3128");
+                }
                 "connect-header-line" => {
                     wire.extend_from_slice(b"HTTP/1.1 200 OK\r\nX: ");
                     url = "https://origin.test/".into();
@@ -240,7 +245,7 @@ pub fn run(sc: &Value) -> Vec<String> {
                             wire.push(b'e')
                         }
                     }
-                    "connect-refusal-body" => wire.push(b'B'),
+                    "connect-refusal-body" | "connect-refusal-body-declared" => wire.push(b'B'),
                     _ => wire.push(b'?'),
                 }
                 i += 1;
@@ -332,7 +337,7 @@ pub fn generate(seed: u64, tier: &str) -> Vec<Value> {
         }
     }
     for what in ["status-line", "header-line", "header-line-folded", "valid-headers", "dup-headers", "invalid-name-headers", "chunk-size-line", "chunk-size-zeros",
-        "chunk-ext", "connect-refusal-body", "connect-header-line"] {
+        "chunk-ext", "connect-refusal-body", "connect-refusal-body-declared", "connect-header-line"] {
         for (i, how) in ["reads:100", "bytes"].iter().enumerate() {
             out.push(json!({"id":format!("e-{}-{}", what, i),"kind":"endless","what":what,"how":how,"total": if thorough { 16 << 20 } else { 2 << 20 }}));
         }
